@@ -198,7 +198,7 @@ def float_ok(ans, v, p):
     if fits:
         if r == v:
             return True, None
-        return False, "value fits in %d bits but result is not exact (relative error %.3g)" % (p, float(abs(r - v) / abs(v)))
+        return False, "value fits in %d bits but result is not exact (relative error %s)" % (p, _g(abs(r - v) / abs(v)))
     # unit in the last place of v at precision p:  2^(e - p)  with  2^(e-1) <= |v| < 2^e
     e = num.bit_length() - den.bit_length()
     if Fraction(num, den) >= Fraction(2) ** e:
@@ -206,7 +206,16 @@ def float_ok(ans, v, p):
     ulp = Fraction(2) ** (e - p)
     if abs(r - v) <= ulp:
         return True, None
-    return False, "error %.3g ulp at precision %d" % (float(abs(r - v) / ulp), p)
+    return False, "error %s ulp at precision %d" % (_g(abs(r - v) / ulp), p)
+
+
+def _g(q):
+    """a rational as a short decimal string, also when it is outside the float range"""
+    try:
+        return "%.3g" % float(q)
+    except OverflowError:
+        q = Fraction(q)
+        return "2^%d" % (abs(q.numerator).bit_length() - q.denominator.bit_length())
 
 
 # ---- further exact definitions (functions without a Lean model: judged by these only) ----------------
